@@ -27,13 +27,23 @@ func (P *extPoint) initXY(x, y *compatible.Int, c kyber.Group) {
 	P.T.Mul(&P.X, &P.Y)
 }
 
+// normalized returns a normalized copy of P. The read-only methods (MarshalBinary, MarshalTo,
+// String, Data, getXY) must not rewrite the coordinates of the receiver: the point may be shared
+// between goroutines (see the contract in kyber.Marshaling), and concurrent in-place
+// normalisation both races and corrupts the value.
+func (P *extPoint) normalized() *extPoint {
+	Q := new(extPoint)
+	Q.Set(P)
+	Q.normalize()
+	return Q
+}
+
 func (P *extPoint) getXY() (x, y *mod.Int) {
-	P.normalize()
-	return &P.X, &P.Y
+	Q := P.normalized()
+	return &Q.X, &Q.Y
 }
 
 func (P *extPoint) String() string {
-	P.normalize()
 	buf, _ := P.MarshalBinary()
 	return hex.EncodeToString(buf)
 }
@@ -43,8 +53,8 @@ func (P *extPoint) MarshalSize() int {
 }
 
 func (P *extPoint) MarshalBinary() ([]byte, error) {
-	P.normalize()
-	return P.c.encodePoint(&P.X, &P.Y), nil
+	Q := P.normalized()
+	return Q.c.encodePoint(&Q.X, &Q.Y), nil
 }
 
 func (P *extPoint) UnmarshalBinary(b []byte) error {
@@ -143,8 +153,8 @@ func (P *extPoint) Pick(rand cipher.Stream) kyber.Point {
 
 // Extract embedded data from a point group element
 func (P *extPoint) Data() ([]byte, error) {
-	P.normalize()
-	return P.c.data(&P.X, &P.Y)
+	Q := P.normalized()
+	return Q.c.data(&Q.X, &Q.Y)
 }
 
 // Add two points using optimized extended coordinate addition formulas.
